@@ -24,6 +24,7 @@ import (
 	"github.com/ErdemOzgen/blackdagger/internal/dag/executor"
 	"github.com/ErdemOzgen/blackdagger/internal/dag/scheduler"
 	"github.com/ErdemOzgen/blackdagger/internal/logger"
+	"github.com/ErdemOzgen/blackdagger/internal/persistence/model"
 	"github.com/ErdemOzgen/blackdagger/verifh/vh"
 )
 
@@ -35,6 +36,20 @@ type ResetCase struct {
 	St      []int   `json:"st"`
 	Cleared []bool  `json:"cleared"`
 	Err     string  `json:"err,omitempty"`
+}
+
+// ParamCase: the parameter values a retry re-uses.  First = what the steps of the original run saw ($1..$n, $NAME)
+// after dag.Load(file, given); Recorded = the Params string the status records (model.Params); Second = what the
+// steps of the retry see after dag.Load(file, Recorded) in a process whose environment has changed meanwhile.
+type ParamCase struct {
+	Stream   string            `json:"stream"`
+	K        int               `json:"k"`
+	Default  string            `json:"default"`
+	Given    string            `json:"given"`
+	Recorded string            `json:"recorded"`
+	First    map[string]string `json:"first"`
+	Second   map[string]string `json:"second"`
+	Err      string            `json:"err,omitempty"`
 }
 
 type RunCase struct {
@@ -341,6 +356,88 @@ func main() {
 		out.Put(resetCase("reset-rand", k, n, deps, st))
 		k++
 	}
+
+	// ---- params stream ----------------------------------------------------------------------
+	np := 150
+	if tier == "thorough" {
+		np = 3000
+	}
+	words := []string{"alpha", "b2", "x.y", "7", "a-b", "p/q", "${VERIF_C10_E}", "$VERIF_C10_E", "pre_${VERIF_C10_E}", "${VERIF_C10_E}.d"}
+	names := []string{"NAME", "DAY", "TARGET", "N1"}
+	genParams := func() string {
+		cnt := 1 + rng.Below(4)
+		out := ""
+		used := map[string]bool{}
+		for i := 0; i < cnt; i++ {
+			if i > 0 {
+				out += " "
+			}
+			w := words[rng.Below(len(words))]
+			if rng.Chance(1, 2) {
+				nmx := names[rng.Below(len(names))]
+				if !used[nmx] {
+					used[nmx] = true
+					out += nmx + "=" + w
+					continue
+				}
+			}
+			out += w
+		}
+		return out
+	}
+	snapshot := func() map[string]string {
+		m := map[string]string{}
+		for i := 1; i <= 6; i++ {
+			if v, ok := os.LookupEnv(fmt.Sprint(i)); ok {
+				m[fmt.Sprint(i)] = v
+			}
+		}
+		for _, nmx := range names {
+			if v, ok := os.LookupEnv(nmx); ok {
+				m[nmx] = v
+			}
+		}
+		return m
+	}
+	clearEnv := func() {
+		for i := 1; i <= 9; i++ {
+			os.Unsetenv(fmt.Sprint(i))
+		}
+		for _, nmx := range names {
+			os.Unsetenv(nmx)
+		}
+	}
+	for c := 0; c < np; c++ {
+		pc := ParamCase{Stream: "params", K: k, Default: genParams()}
+		k++
+		if rng.Chance(1, 2) {
+			pc.Given = genParams()
+		}
+		file := fmt.Sprintf("%s/p%d.yaml", dir, c)
+		os.WriteFile(file, []byte("params: '"+pc.Default+"'\nsteps:\n  - name: s\n    command: \"true\"\n"), 0o644)
+		clearEnv()
+		os.Setenv("VERIF_C10_E", "monday")
+		d1, err := dag.Load("", file, pc.Given)
+		if err != nil {
+			pc.Err = "first load: " + err.Error()
+			out.Put(pc)
+			continue
+		}
+		pc.First = snapshot()
+		pc.Recorded = model.Params(d1.Params)
+		clearEnv()
+		os.Setenv("VERIF_C10_E", "tuesday")
+		_, err = dag.Load("", file, pc.Recorded)
+		if err != nil {
+			pc.Err = "retry load: " + err.Error()
+			out.Put(pc)
+			continue
+		}
+		pc.Second = snapshot()
+		out.Put(pc)
+		os.Remove(file)
+	}
+	clearEnv()
 
 	// ---- run stream -------------------------------------------------------------------------
 	nruns := 250
